@@ -157,7 +157,7 @@ PROPS = {
         'level_text': "Proof (success_trace): whenever the generated method returns Ok, for any hook environment, the hooks invoked are exactly around-Before, guards, unless, before (source-typed machine), after (target-typed machine), around-AfterSuccess, each declared hook once in declaration order, each handed the machine's own context and the caller's payload; result typed in the target with the same context.",
         'level_note': "Order of event-level before transition-level hooks is the order of the edge's merged lists (edgesOfSource, tied by T1). Tie: T2 regions FE AB GC BC CN AC AA.",
         'title': 'Success path runs every hook exactly once in the documented order',
-        'modules': ['SMV.Props.C04'],
+        'modules': ['SMV.Props.C04', 'SMV.Props.RefineTrace'],
         'regions': ['FE', 'AB', 'GC', 'BC', 'CN', 'AC', 'AA'],
         't3': ['assign', 'walk'],
         'design_ref': 'DESIGN.md §7 C04',
@@ -175,7 +175,7 @@ PROPS = {
         'level_text': "Proof (before_abort, after_success_on_ok, no_after_success_on_err, ok_implies_after_all_proceed, after_abort_panics): a Before-stage abort at any position returns the receiver unchanged with the abort's kind, the carried name (callback name for invalid-transition) and the event; AfterSuccess stages run exactly once each, last, only on success; an AfterSuccess abort always panics with the generated message and never yields Ok/Err.",
         'level_note': 'Tie: T2 regions AB AA (panic literal included).',
         'title': 'Around callbacks can veto before the transition and are never swallowed after',
-        'modules': ['SMV.Props.C06'],
+        'modules': ['SMV.Props.C06', 'SMV.Props.RefineVeto'],
         'regions': ['AB', 'AA'],
         't3': ['assign'],
         'design_ref': 'DESIGN.md §7 C06',
